@@ -691,6 +691,73 @@ std::string opRtResp(const std::vector<std::string>& w)
     return "clientsees[" + clientSend(port, rs) + "]";
 }
 
+// A relay between the real client and the endpoint: what the client sends is passed on as it comes; what the server sends is
+// passed on in pieces that end at the given byte offsets (each piece followed by a pause, so that the client reads it on its own).
+struct Relay {
+    int lfd = -1; uint16_t port = 0; std::thread th; std::atomic<bool> stop { false };
+    bool start(uint16_t target, std::vector<size_t> cuts)
+    {
+        lfd = ::socket(AF_INET, SOCK_STREAM, 0); if (lfd < 0) return false;
+        int one = 1; ::setsockopt(lfd, SOL_SOCKET, SO_REUSEADDR, &one, sizeof one);
+        sockaddr_in a {}; a.sin_family = AF_INET; a.sin_port = 0; a.sin_addr.s_addr = htonl(INADDR_LOOPBACK);
+        if (::bind(lfd, reinterpret_cast<sockaddr*>(&a), sizeof a) != 0 || ::listen(lfd, 4) != 0) return false;
+        socklen_t len = sizeof a; ::getsockname(lfd, reinterpret_cast<sockaddr*>(&a), &len); port = ntohs(a.sin_port);
+        th = std::thread([this, target, cuts] {
+            int cfd = -1;
+            while (!stop && cfd < 0) { pollfd p { lfd, POLLIN, 0 }; if (::poll(&p, 1, 20) > 0) cfd = ::accept(lfd, nullptr, nullptr); }
+            if (cfd < 0) return;
+            int one = 1; ::setsockopt(cfd, IPPROTO_TCP, TCP_NODELAY, &one, sizeof one);
+            int sfd = connectTo(target);
+            if (sfd < 0) { ::close(cfd); return; }
+            size_t sent = 0, ci = 0; char tmp[16384];
+            while (!stop) {
+                pollfd ps[2] = { { cfd, POLLIN, 0 }, { sfd, POLLIN, 0 } };
+                if (::poll(ps, 2, 20) <= 0) continue;
+                if (ps[0].revents) { ssize_t n = ::recv(cfd, tmp, sizeof tmp, 0); if (n <= 0) break; if (!sendAll(sfd, std::string(tmp, static_cast<size_t>(n)))) break; }
+                if (ps[1].revents) {
+                    ssize_t n = ::recv(sfd, tmp, sizeof tmp, 0); if (n <= 0) break;
+                    size_t off = 0, len2 = static_cast<size_t>(n); bool bad = false;
+                    while (off < len2) {
+                        while (ci < cuts.size() && cuts[ci] <= sent) ++ci;
+                        size_t piece = len2 - off;
+                        bool pause = false;
+                        if (ci < cuts.size() && cuts[ci] - sent <= piece) { piece = cuts[ci] - sent; pause = true; }
+                        if (!sendAll(cfd, std::string(tmp + off, piece))) { bad = true; break; }
+                        off += piece; sent += piece;
+                        if (pause) std::this_thread::sleep_for(std::chrono::milliseconds(4));
+                    }
+                    if (bad) break;
+                }
+            }
+            ::close(cfd); ::close(sfd);
+        });
+        return true;
+    }
+    void finish() { stop = true; if (th.joinable()) th.join(); if (lfd >= 0) ::close(lfd); }
+};
+
+// rtrespc <cut+cut+...> <arguments of rtresp>: the same, but the client reads the response through the relay, in pieces that end at
+// the given offsets (a first read of 1..7 bytes, a cut inside the header block, inside a chunk-size line ...)
+std::string opRtRespCut(const std::vector<std::string>& w0)
+{
+    if (w0.size() != 11) return "bad-op";
+    std::vector<size_t> cuts; for (auto& t : split(w0[1], '+')) cuts.push_back(strtoul(t.c_str(), nullptr, 10));
+    std::vector<std::string> w(w0.begin() + 1, w0.end()); w[0] = "rtresp";
+    Cfg c; c.maxResp = strtoul(w[1].c_str(), nullptr, 10);
+    RespScript sc; sc.mode = w[2]; sc.code = atoi(w[3].c_str());
+    for (auto& h : split(w[4], ',')) { size_t eq = h.find('='); if (eq == std::string::npos) return "bad-op"; sc.headers.emplace_back(h.substr(0, eq), unhex(h.substr(eq + 1))); }
+    for (auto& k : split(w[5], ',')) sc.cookies.push_back(unhex(k));
+    for (auto& k : split(w[6], ',')) sc.chunks.push_back(unhex(k));
+    sc.flushes = w[7] == "-" ? "" : w[7]; sc.lits = w[8] == "-" ? "" : w[8];
+    uint16_t port = ensureEndpoint(c);
+    { std::lock_guard<std::mutex> g(G.m); G.script = sc; }
+    Relay relay; if (!relay.start(port, cuts)) return "relay-failed";
+    ReqSpec rs; rs.method = "Get"; rs.path = "/x";
+    std::string r = clientSend(relay.port, rs);
+    relay.finish();
+    return "clientsees[" + r + "]";
+}
+
 int statusOf(const std::string& raw)
 {
     if (raw.size() < 12 || raw.compare(0, 5, "HTTP/") != 0) return 0;
@@ -1458,6 +1525,7 @@ int main()
     ops["tom"] = opTimeoutMany;
     ops["respslow"] = opRespSlow;
     ops["rtresp"] = opRtResp;
+    ops["rtrespc"] = opRtRespCut;
     int rc = runLoop(ops, 30);
     stopEndpoint();
     return rc;
